@@ -120,6 +120,52 @@ def rule_full_data(ctx):
                   "each appended segment is compared with the expected next sequence number",
                   "stored segments are concatenated without checking that each one starts where the previous one ended: after out-of-order arrival with a "
                   "missing segment a head is assembled from non-contiguous bytes", ctx.loc(b, blk))
+    # R1: what is concatenated is the *ordered* list: the loop (or chain) that appends walks the very vector the sort was applied to -
+    # not the stored, arrival-ordered one it was copied from
+    sorts = [(sb, st) for sb, st in b.calls() if callee_of(st).rsplit("::", 1)[-1] in
+             ("sort_by_key", "sort_by", "sort_unstable_by_key", "sort_unstable_by", "sort", "sort_unstable", "sort_by_cached_key")]
+    if sorts:
+        sp = sorts[0][1]["args"][0].get("m") or sorts[0][1]["args"][0].get("c")
+        sorted_local = _storage_root(b, sp["l"]) if sp is not None else None
+        walked = set()
+        from ..engine import lists as L1
+        for xb in L1.with_closures(P, b)[:1]:
+            for ib, it in xb.calls():
+                nm_ = callee_of(it)
+                if nm_.endswith(("IntoIterator>::into_iter", "::into_iter", "[T]>::iter", "::iter")) and it["args"]:
+                    ip = it["args"][0].get("m") or it["args"][0].get("c")
+                    if ip is None:
+                        continue
+                    # only iterations whose items are appended
+                    feeds = False
+                    for eb, et in Q.calls(b, ["extend_from_slice", "::extend", "::append", "::flat_map", "::for_each", "::concat"]):
+                        for y in Q.call_args(b, S, eb, et):
+                            # the iteration whose items are appended: the source of the outermost `next()` (or of the chain itself) -
+                            # not an iteration further inside that merely built the vector being walked
+                            node = None
+                            for x in T.walk(y):
+                                if x[0] == "call" and (x[1].endswith("::next") or x[1].endswith(("::into_iter", "::iter")) and len(x) > 3):
+                                    node = x
+                                    break
+                            guard_ = 0
+                            while node is not None and guard_ < 12:
+                                guard_ += 1
+                                if node[0] == "call" and node[1].endswith(("::into_iter", "::iter")) and len(node) > 3:
+                                    if node[3] == ib:
+                                        feeds = True
+                                    break
+                                nxt = None
+                                if node[0] == "call" and node[2]:
+                                    nxt = node[2][0]
+                                    while nxt[0] in ("ref", "deref"):          # (not T.strip: it looks through into_iter / clone as well)
+                                        nxt = nxt[2] if nxt[0] == "ref" else nxt[1]
+                                node = nxt if nxt is not None and nxt[0] == "call" else None
+                    if feeds:
+                        walked.add(_storage_root(b, ip["l"]))
+        ctx.check(bool(walked) and walked == {sorted_local}, "R1", "get_full_data:concatenates-sorted", "the appended segments are taken from the sorted vector",
+                  "get_full_data sorts `%s` but concatenates %s: segments are joined in arrival order, so a head whose segments were reordered in flight is "
+                  "never parsed" % (b.local_name(sorted_local) or "_%s" % sorted_local, sorted((b.local_name(x) or "_%s" % x) for x in walked) or "nothing it can follow"),
+                  ctx.loc(b, sorts[0][0]))
     # selects the direction asked for
     sel = {}
     for i, j, s in b.iter_stmts():
@@ -135,6 +181,35 @@ def rule_full_data(ctx):
 
 
 VIEW_HELPERS = ("http_process::parse_http_request", "http_process::parse_http_response")
+
+
+def _storage_root(b, l):
+    """the named local whose storage a temporary refers to: through `&mut x`, copies, and Deref / DerefMut / as_mut_slice calls"""
+    for _ in range(10):
+        if b.local_name(l) or 1 <= l <= b.arg_count:
+            return l
+        ds = [s for (_, _, s) in b.iter_stmts() if s["k"] == "assign" and s["p"]["l"] == l and not s["p"]["pr"]]
+        cs = [blk["t"] for blk in b.blocks if blk["t"]["k"] == "call" and blk["t"].get("dest") and blk["t"]["dest"]["l"] == l and not blk["t"]["dest"]["pr"]]
+        if len(ds) + len(cs) != 1:
+            return l
+        if cs:
+            nm = callee_of(cs[0]).rsplit("::", 1)[-1]
+            p = (cs[0]["args"][0].get("m") or cs[0]["args"][0].get("c")) if cs[0]["args"] else None
+            if nm in ("deref", "deref_mut", "as_mut_slice", "as_slice", "as_mut", "as_ref", "borrow_mut", "borrow") and p is not None and not p["pr"]:
+                l = p["l"]
+                continue
+            return l
+        r = ds[0]["r"]
+        if r["k"] == "ref" and (not r["p"]["pr"] or r["p"]["pr"] == ["*"]):
+            l = r["p"]["l"]
+            continue
+        if r["k"] in ("use", "cast"):
+            p = r["o"].get("m") or r["o"].get("c")
+            if p is not None and (not p["pr"] or p["pr"] == ["*"]):
+                l = p["l"]
+                continue
+        return l
+    return l
 
 
 def rule_process(ctx):
